@@ -1,3 +1,82 @@
 import KsiVerif.Util.DriverMain
-open KsiVerif
-def main : IO Unit := runDriver (fun i _ => "skip no-model-yet " ++ i)
+import KsiVerif.Spec.Uri
+/-! Model driver for C20 — protocol in harness/exec_c20.c. -/
+open KsiVerif KsiVerif.Uri
+
+def oh (o : Option Bytes) : String := match o with | none => "~" | some b => toHex b
+
+def argOpt (s : String) : Option (Option Bytes) := if s == "~" then some none else (ofHex s).map some
+
+def showTarget (t : Target) : String :=
+  match t with
+  | .http url u k => s!"{t.status} H {toHex url} {oh u} {oh k}"
+  | .tcp h p u k => s!"{t.status} T {toHex h} {p} {oh u} {oh k}"
+  | .file path u k => s!"{t.status} F {toHex path} {oh u} {oh k}"
+  | .refused st => s!"{st} none"
+
+/-- parts written by the generator: scheme|user|key|hostform|host|port|path|query|fragment, hex, `~` = absent -/
+def parseParts (s : String) : Option UParts :=
+  match s.splitOn "|" with
+  | [sc, u, k, hf, h, po, pa, q, f] =>
+    match ofHex sc, argOpt u, argOpt k, ofHex h, ofHex pa, argOpt q, argOpt f with
+    | some sc, some u, some k, some h, some pa, some q, some f =>
+      let cred := match u, k with | some u, some k => some (u, k) | _, _ => none
+      some { scheme := sc, cred := cred, host := if hf == "6" then .v6 h else .name h,
+             port := if po == "~" then none else po.toNat?, path := pa, query := q, fragment := f }
+    | _, _, _, _, _, _, _ => none
+  | _ => none
+
+def verdict (cls model impl : String) (spec : Option String) : String :=
+  match spec with
+  | some why => s!"specfail {cls} {why}"
+  | none => if model == impl then s!"ok {cls}" else s!"diff {cls} model={model}"
+
+def cls (out : String) : String :=
+  match words out with
+  | st :: t :: _ => s!"{st}:{t}"
+  | [st] => st
+  | [] => "?"
+
+def handle (inp out : String) : String :=
+  match words inp with
+  | ["split", h] =>
+    match ofHex h with
+    | some uri =>
+      let ms := match uriSplit uri false with
+        | .error e => s!"{e}"
+        | .ok p => s!"0 {oh p.scheme} {oh p.host} {p.port} {oh p.path}"
+      verdict s!"split:{cls out}" ms out none
+    | none => "skip bad-hex"
+  | ["splitfull", h] =>
+    match ofHex h with
+    | some uri =>
+      let ms := match uriSplit uri with
+        | .error e => s!"{e}"
+        | .ok p => s!"0 {oh p.scheme} {oh p.user} {oh p.pass} {oh p.host} {p.port} {oh p.path} {oh p.query} {oh p.fragment}"
+      verdict s!"splitfull:{cls out}" ms out none
+    | none => "skip bad-hex"
+  | op :: which :: h :: login :: key :: rest =>
+    if op != "svc" && op != "async" then "skip unknown-op" else
+    match ofHex h, argOpt login, argOpt key with
+    | some uri, some l, some k =>
+      let t := if op == "svc" then setService uri l k else setEndpointAsync uri l k
+      -- oracle: for a well-formed URI given by its parts, what the implementation handed to the transport
+      -- must be what the grammar-level specification says
+      let spec := match rest with
+        | [ps] => match parseParts ps with
+          | some p =>
+            if wf p && render p == uri then
+              let want := showTarget (if op == "svc" then specBlocking p l k else specAsync p l k)
+              -- shape of the URI, for the known-findings file: a fragment directly after the authority
+              let shape := if p.path.isEmpty && p.query.isNone && p.fragment.isSome then " shape=fragment-directly-after-authority"
+                else if uri.length > 65000 then " shape=uri-longer-than-65000-bytes" else ""
+              let unparsed := match uriSplit uri with | .error _ => " impl-treats-uri-as-unparseable" | .ok _ => ""
+              if want == out then none else some s!"transport-was-not-given-what-the-uri-says{shape}{unparsed} want={want}"
+            else none
+          | none => none
+        | _ => none
+      verdict s!"{op}:{which}:{cls out}" (showTarget t) out spec
+    | _, _, _ => "skip bad-args"
+  | _ => "skip unknown-op"
+
+def main : IO Unit := runDriver handle
